@@ -209,6 +209,10 @@ TEXTCONSTS = [
     ("STYPE_SZ", "mfhdf/hrepack/hrepack_parse.c", r"char\s+stype\[(\d+)\]"),
     ("SDIM_SZ", "mfhdf/hrepack/hrepack_parse.c", r"char\s+sdim\[(\d+)\]"),
     ("DEFAULT_THRESHOLD", "mfhdf/hrepack/hrepack.c", r"options->threshold\s*=\s*(\d+)\s*;"),
+    # read_info (the -f option file): the token buffer, the width fscanf may store into it, the buffer of a quoted value
+    ("READ_INFO_STYPE_SZ", "mfhdf/hrepack/hrepack.c", r"char\s+stype\[(\d+)\]"),
+    ("READ_INFO_TOKEN_WIDTH", "mfhdf/hrepack/hrepack.c", r'fscanf\(\s*fp\s*,\s*"%(\d+)s"\s*,\s*stype\s*\)'),
+    ("READ_INFO_SZ", "mfhdf/hrepack/hrepack.c", r"char\s+info\[(\d+)\]"),
 ]
 
 # expression macros translated from source text: (lean name, file, macro name)
@@ -250,6 +254,9 @@ FLAGS = [
     ("HSETLENGTH_CHECKS_ACCESS", "hdf/src/hfile.c", "Hsetlength", r"!\s*\(\s*access_rec->access\s*&\s*DFACC_WRITE\s*\)"),
     # C13: Hclose refuses a file id through which access elements are still attached (whatever other ids keep the file open)
     ("HPREAD_ZERO_FILLS_RESERVED", "hdf/src/hfile.c", "HP_read", r"file_rec->cache\s*&&\s*\(file_rec->dirty\s*&\s*FILE_END_DIRTY\)\)\s*\|\|\s*bytes\s*>\s*file_rec->f_end_off\s*-\s*file_rec->f_cur_off\)\s*HGOTO_ERROR[^;]*;\s*memset\("),
+    # C18: both copy loops of read_info (-t and -c values) test the index against sizeof(info) before they store a character
+    ("READ_INFO_BOUNDS_VALUE", "mfhdf/hrepack/hrepack.c", "read_info",
+     r"(?:if\s*\(\s*i\s*>=\s*\(int\)\s*sizeof\(info\)\s*\)\s*\{[^}]*goto\s+out;\s*\}\s*info\[i\]\s*=\s*c;[\s\S]*){2}"),
     ("HLCREATE_REFUSES_ZERO", "hdf/src/hblocks.c", "HLcreate", r"block_length\s*<=\s*0\s*\|\|\s*number_blocks\s*<=\s*0"),
     ("HLCONVERT_REFUSES_ZERO", "hdf/src/hblocks.c", "HLconvert", r"block_length\s*<=\s*0\s*\|\|\s*number_blocks\s*<=\s*0"),
     ("HCLOSE_CHECKS_ID_AIDS", "hdf/src/hfile.c", "Hclose", r"HAsearch_atom\(\s*AIDGROUP\s*,[^;]*&file_id\)\s*!=\s*NULL"),
@@ -444,6 +451,15 @@ FNUNITS = [
     ("Hfile", "hdf/src/hfile.c", ["HPseek", "HP_read", "HP_write", "HIextend_file", "HPgetdiskblock", "HPfreediskblock"],
      {"ignore_calls": ["HEclear", "HEPclear", "HEpush", "clearerr"], "wrap_int_conv": True, "int_types": {"fileop_t": [False, 32]},
       "io": {"fseek": "stdio_fseek", "fread": "stdio_fread", "fwrite": "stdio_fwrite", "ferror": "stdio_ferror"}}),
+    # C18: hrepack's option parser.  parse_comp / parse_chunk walk the NUL-terminated argument string character by character into the local
+    # token buffers obj[], scomp[], stype[], smask[], sdim[] (local arrays start POISONED), the object list is a malloc'ed array of
+    # obj_list_t = { char obj[H4_MAX_NC_NAME] } (a row struct: one region, 256 cells per element), strcmp against string literals, atoi, isdigit
+    # (builtins; the file is parsed with -D__NO_CTYPE so that isdigit stays a call), `goto out`, a switch on comp->type; rejection = return NULL.
+    ("Repack", "mfhdf/hrepack/hrepack_parse.c", ["parse_comp", "parse_chunk"],
+     {"ignore_calls": ["printf"], "libc_builtins": True, "row_structs": ["obj_list_t"], "poison_locals": True, "cflags": ["-D__NO_CTYPE"],
+      "int_types": {"comp_coder_t": [False, 32]}}),
+    # is_reserved: the strcmp chain over the library's class names and the strncmp prefix test
+    ("Repack2", "mfhdf/hrepack/hrepack_utils.c", ["is_reserved"], {"ignore_calls": ["printf"], "libc_builtins": True}),
 ]
 
 
